@@ -1,11 +1,17 @@
 (* C13 - An aborted session still leaves a well-formed log of the completed boards.
    Only statements, each closed by [exact]; proofs are in the files imported below. *)
-From BE Require Import Model.Session Model.SessionTie Spec.SessionSpec Proofs.Kahn Proofs.Session Proofs.SessionExamples Model.Json Gen.JsonFraming Proofs.C13Cor.
+From BE Require Import Model.Session Model.SessionTie Spec.SessionSpec Proofs.Kahn Proofs.Session Proofs.SessionExamples Model.Conform Proofs.SessionConform Proofs.SessionPassOut Proofs.Wire Model.Json Gen.JsonFraming Proofs.C13Cor Proofs.SessionAbort.
 From BE Require Import Gen.Skeleton Proofs.SkeletonPin.
 From Coq Require Import ZArith.
 Local Open Scope nat_scope.
 Local Open Scope list_scope.
-
+(* FULL STATEMENT, PROVED (Proofs/SessionAbort.v) for sessions whose clients connect in the order N, E, S, W: if the clients
+   conform on the first a boards and board a+1 goes wrong at ANY position - a call text that does not parse, a call that parses
+   but is illegal, a card text that does not parse, a card the table refuses - by whichever seat is on turn, then some schedule
+   makes the main thread raise, no schedule can avoid it, every schedule is bounded, and whenever the main thread has ended (or
+   nothing can move) the file is open ; the model records of exactly the first a boards ; close, and parses to those records.
+   An operator interrupt after k main-thread steps leaves a prefix of the records of the uninterrupted session.  Not covered: a
+   client that stops silently (then nothing is abandoned: the session blocks), and which prefix a given k yields. *)
 (* every channel of the session network has one reader and one writer, for every input and every message that might arrive *)
 Theorem C13_ownership :
   forall x, wf_state msg (rd x) (wr x) cw (init_state x).
@@ -69,6 +75,87 @@ Theorem C13_aborted_log_parses :
     parse_doc ts = Some (JObj [(tag_logs, JArr (map record_json recs))]).
 Proof. exact aborted_log_parses. Qed.
 Print Assumptions C13_aborted_log_parses.
+
+(* FULL, symbolic and unbounded: any abort point (board, position, seat) and each kind of offending action *)
+Theorem C13_abandoned_session_log :
+  forall boards ns ew scripts a bd,
+  no_quote ns -> no_quote ew ->
+  (forall p, length (scripts p) = length boards) ->
+  nth_error boards a = Some bd ->
+  forallb (fun '(i, b) => conform_board b (fun p => nth_script (scripts p) i)) (combine (seq 0 a) (firstn a boards)) = true ->
+  board_goes_wrong bd (fun p => nth_script (scripts p) a) ->
+  exists recs, map Some recs = recs_from (NM ns ew) scripts 0 (firstn a boards) /\
+    (* some schedule makes the main thread raise *)
+    (exists l f, srun l (init_state (conf_session boards ns ew scripts)) = Some f /\ aborted_with recs f) /\
+    (* no schedule can avoid it *)
+    (forall l' s', srun l' (init_state (conf_session boards ns ew scripts)) = Some s' ->
+       exists m' f, srun m' s' = Some f /\ aborted_with recs f) /\
+    (* and whenever the main thread has ended, or nothing can move, it has raised and the file is complete and holds recs *)
+    forall l' s', srun l' (init_state (conf_session boards ns ew scripts)) = Some s' -> main_ended s' \/ sfinal s' ->
+      nth_error (procs msg s') 0 = Some Fail /\
+      log_events 4 s' = LOpen :: map LRec recs ++ [LClose] /\
+      exists ts, written_tokens json_framing tag_logs (map record_json recs) = Some ts /\
+                 parse_doc ts = Some (JObj [(tag_logs, JArr (map record_json recs))]).
+Proof. exact abandoned_session_log. Qed.
+Print Assumptions C13_abandoned_session_log.
+
+(* one final state, every schedule bounded, every maximal schedule ends in it *)
+Theorem C13_abandoned_session_bounded :
+  forall boards ns ew scripts a bd,
+  no_quote ns -> no_quote ew ->
+  (forall p, length (scripts p) = length boards) ->
+  nth_error boards a = Some bd ->
+  forallb (fun '(i, b) => conform_board b (fun p => nth_script (scripts p) i)) (combine (seq 0 a) (firstn a boards)) = true ->
+  board_goes_wrong bd (fun p => nth_script (scripts p) a) ->
+  exists recs fin bound, map Some recs = recs_from (NM ns ew) scripts 0 (firstn a boards) /\
+    sfinal fin /\ aborted_with recs fin /\
+    forall l' s', srun l' (init_state (conf_session boards ns ew scripts)) = Some s' -> length l' <= bound /\ (sfinal s' -> s' = fin).
+Proof. exact abandoned_session_bounded. Qed.
+Print Assumptions C13_abandoned_session_bounded.
+
+(* operator interrupt at any step of the main thread: the file holds a prefix of the records *)
+Theorem C13_interrupted_session_log :
+  forall boards ns ew scripts k,
+  boards <> [] -> no_quote ns -> no_quote ew -> conforming boards scripts = true ->
+  exists l f recs cnt, srun l (init_state (conf_session_interrupted boards ns ew scripts k)) = Some f /\
+    main_ended f /\ log_events 4 f = LOpen :: map LRec recs ++ [LClose] /\
+    map Some recs = firstn cnt (recs_from (NM ns ew) scripts 0 boards).
+Proof. exact interrupted_session_log. Qed.
+Print Assumptions C13_interrupted_session_log.
+
+Theorem C13_interrupted_session_every_schedule :
+  forall boards ns ew scripts k,
+  boards <> [] -> no_quote ns -> no_quote ew -> conforming boards scripts = true ->
+  exists recs cnt, map Some recs = firstn cnt (recs_from (NM ns ew) scripts 0 boards) /\
+    forall l' s', srun l' (init_state (conf_session_interrupted boards ns ew scripts k)) = Some s' -> main_ended s' \/ sfinal s' ->
+      main_ended s' /\ log_events 4 s' = LOpen :: map LRec recs ++ [LClose].
+Proof. exact interrupted_session_every_schedule. Qed.
+Print Assumptions C13_interrupted_session_every_schedule.
+
+Theorem C13_abandoned_and_interrupted :
+  forall boards ns ew scripts a bd k,
+  no_quote ns -> no_quote ew ->
+  (forall p, length (scripts p) = length boards) ->
+  nth_error boards a = Some bd ->
+  forallb (fun '(i, b) => conform_board b (fun p => nth_script (scripts p) i)) (combine (seq 0 a) (firstn a boards)) = true ->
+  board_goes_wrong bd (fun p => nth_script (scripts p) a) ->
+  exists recs cnt fin bound, map Some recs = recs_from (NM ns ew) scripts 0 (firstn a boards) /\
+    sfinal fin /\ main_ended fin /\ log_events 4 fin = LOpen :: map LRec (firstn cnt recs) ++ [LClose] /\
+    forall l' s', srun l' (init_state (with_interrupt (conf_session boards ns ew scripts) k)) = Some s' ->
+      length l' <= bound /\ (sfinal s' -> s' = fin).
+Proof. exact abandoned_session_interrupted. Qed.
+Print Assumptions C13_abandoned_and_interrupted.
+
+(* for EVERY state of the network (any input): no schedule runs for ever *)
+Theorem C13_no_infinite_schedule :
+  forall s, Acc snext s.
+Proof. exact no_infinite_schedule. Qed.
+Print Assumptions C13_no_infinite_schedule.
+
+Theorem C13_every_run_ends :
+  forall s, exists m f, srun m s = Some f /\ sfinal f.
+Proof. exact every_run_extends_to_a_final_state. Qed.
+Print Assumptions C13_every_run_ends.
 
 (* which boards are listed does not depend on the schedule *)
 Theorem C13_same_log_under_every_schedule_partial :
